@@ -63,15 +63,76 @@ def gen_type(rng, n_prev: int, depth: int, small: bool, text_ok: bool, allow_ref
     return gen_primitive(rng, small)
 
 
+def lookalike_cluster(rng, i0: int) -> list:
+    """
+    Definitions whose bit length sets are DIFFERENT but agree in min, max and residues modulo 32 - exactly what pydsdl's
+    approximate BitLengthSet equality / hash cannot tell apart - followed by one definition that uses them side by side in the
+    same roles (arrays of equal capacity, variants of one union in a random order, consecutive fields).  Anything that keys a
+    cache or a de-duplication on set equality confuses them.
+    Dense: uint32[<=2n] -> {8+32j}; half: uint64[<=n] -> {8+64j}; sparse: union{Empty, uint64[n]} -> {8, 8+64n}.
+    """
+    n = rng.choice([1, 2, 2, 3, 4])
+    nm = lambda k: "%s.T%d" % (ROOT, i0 + k)  # noqa
+    mk = lambda k, kind, fields: {"name": nm(k), "ver": (1, 0), "kind": kind, "fields": fields, "sealed": True, "extent": None, "lookalike": True}  # noqa
+    mode = rng.choice(["sat", "trunc"])
+    defs = [
+        mk(0, "struct", []),
+        mk(1, "struct", [{"name": "d%df0" % (i0 + 1), "type": ("var", ("uint", 32, mode), 2 * n)}]),
+        mk(2, "struct", [{"name": "d%df0" % (i0 + 2), "type": ("var", ("uint", 64, mode), n)}]),
+        mk(3, "union", [{"name": "d%dv0" % (i0 + 3), "type": ("ref", i0)}, {"name": "d%dv1" % (i0 + 3), "type": ("fixed", ("uint", 64, mode), n)}]),
+    ]
+    members = [i0 + 1, i0 + 2, i0 + 3]
+    rng.shuffle(members)
+    if rng.random() < 0.4:
+        members = members[:2]
+    i = i0 + 4
+    shape = rng.choice(["arrays-fixed", "arrays-var", "union", "fields", "mixed"])
+    cap = rng.choice([1, 2, 2, 3])
+    fields = []
+    if shape == "union":
+        fields = [{"name": "d%dv%d" % (i, j), "type": ("ref", m)} for j, m in enumerate(members)]
+        user = mk(4, "union", fields)
+    else:
+        for j, m in enumerate(members):
+            if shape == "arrays-fixed" or (shape == "mixed" and j % 2 == 0):
+                t = ("fixed", ("ref", m), cap)
+            elif shape == "arrays-var" or shape == "mixed":
+                t = ("var", ("ref", m), cap)
+            else:
+                t = ("ref", m)
+            fields.append({"name": "d%df%d" % (i, j), "type": t})
+        if rng.random() < 0.6:
+            fields.append({"name": "d%dtail" % i, "type": rng.choice([("uint", 8, "sat"), ("bool",), ("uint", 3, "trunc"), ("ref", members[0])])})
+        user = mk(4, "struct", fields)
+    return defs + [user]
+
+
+def gen_consts(rng, i: int, nf: int) -> list:
+    out = []
+    for j in range(rng.choice([1, 1, 2, 3])):
+        k = rng.choice(["uint8", "int16", "bool"])
+        v = {"uint8": lambda: rng.choice([0, 1, 255, rng.randrange(256)]), "int16": lambda: rng.choice([-32768, -1, 0, 32767]), "bool": lambda: rng.random() < 0.5}[k]()
+        out.append({"after": rng.randrange(nf + 1), "ctype": k, "name": "D%dK%d" % (i, j), "value": v})
+    return out
+
+
 def gen_universe(rng, n_defs=None, small=False, text_ok=True, max_fields=6, cost_budget=60000, divisors=(1, 8, 32),
-                 force_union_variants=None):
+                 force_union_variants=None, lookalike=None, consts=False):
     """
     Returns a list of composite definitions, each referencing only earlier ones; every definition passes the
     implementation-cost predictor for the divisors the constructors and __eq__ use.
+    lookalike: prepend a cluster of look-alike definitions (see lookalike_cluster); default: one universe in six when the
+    caller does not fix the number of definitions.
+    consts: a third of the definitions additionally carry 1-3 constants between their fields (attributes that are not fields:
+    they take no part in the layout, the tag numbering or the wire format).
     """
+    if lookalike is None:
+        lookalike = n_defs is None and force_union_variants is None and rng.random() < 1 / 6
     n_defs = n_defs or rng.randrange(1, 6)
-    u = []
-    for i in range(n_defs):
+    u = lookalike_cluster(rng, 0) if lookalike else []
+    if lookalike:
+        n_defs = len(u) + rng.choice([0, 1, 2])
+    for i in range(len(u), n_defs):
         for _attempt in range(40):
             kind = "union" if rng.random() < 0.3 else "struct"
             fields = []
@@ -102,6 +163,8 @@ def gen_universe(rng, n_defs=None, small=False, text_ok=True, max_fields=6, cost
                     meter.mod(inner, dv)
             except R.TooBig:
                 continue
+            if consts and rng.random() < 1 / 3:
+                d["consts"] = gen_consts(rng, i, len(fields))
             u.append(d)
             break
         else:
@@ -168,6 +231,13 @@ def render_def(d, u, rng=None, extra_lines_after=None) -> str:
         lines.append("@union")
     extra = extra_lines_after or {}
     nf = 0
+
+    def consts_here():
+        for c in d.get("consts", []):
+            if c["after"] == nf:
+                lines.append("%s %s = %s" % (c["ctype"], c["name"], {True: "true", False: "false"}.get(c["value"], c["value"]) if c["ctype"] == "bool" else c["value"]))
+
+    consts_here()
     for ln in extra.get(0, []):
         lines.append(ln)
     for f in d["fields"]:
@@ -176,6 +246,7 @@ def render_def(d, u, rng=None, extra_lines_after=None) -> str:
         else:
             lines.append("%s %s" % (render_type(f["type"], u, rng), f["name"]))
         nf += 1
+        consts_here()
         for ln in extra.get(nf, []):
             lines.append(ln)
     if d["sealed"]:
@@ -247,11 +318,24 @@ def construct_type(pydsdl, t, built):
 
 def construct_def(pydsdl, d, built, doc=lambda: "", name=None, path=None, parent_service=False):
     attrs = []
-    for f in d["fields"]:
+    tail = []  # pydsdl lists the fields (incl. padding) first and the constants after them, each in source order
+
+    def consts_here(nf):
+        for c in d.get("consts", []):
+            if c["after"] == nf:
+                sat = pydsdl.PrimitiveType.CastMode.SATURATED
+                t = {"uint8": lambda: pydsdl.UnsignedIntegerType(8, sat), "int16": lambda: pydsdl.SignedIntegerType(16, sat), "bool": lambda: pydsdl.BooleanType()}[c["ctype"]]()
+                v = pydsdl.Boolean(c["value"]) if c["ctype"] == "bool" else pydsdl.Rational(c["value"])
+                tail.append(pydsdl.Constant(t, c["name"], v, doc()))
+
+    consts_here(0)
+    for nf, f in enumerate(d["fields"], 1):
         if "pad" in f:
             attrs.append(pydsdl.PaddingField(pydsdl.VoidType(f["pad"]), doc()))
         else:
             attrs.append(pydsdl.Field(construct_type(pydsdl, f["type"], built), f["name"], doc()))
+        consts_here(nf)
+    attrs += tail
     cls = pydsdl.UnionType if d["kind"] == "union" else pydsdl.StructureType
     inner = cls(
         name=name or d["name"], version=pydsdl.Version(*d["ver"]), attributes=attrs, deprecated=bool(d.get("deprecated")),
